@@ -104,6 +104,9 @@ func (vc *VC) call(fr *Frame, st *State, instr *ssa.Call, c *ssa.CallCommon) {
 			vc.addObl(fr, st, "nil", "invoke:"+c.Method.Name(), Not(Eq(ITyp(recv), IntLit(0))), nil, pos)
 		}
 		if con := vc.eng.contractsByKey[key]; con != nil {
+			if con.Iterates != "" && vc.iterateCallback(fr, st, instr, c, con, sig, pos) {
+				return
+			}
 			rs := vc.applyContract(fr, st, con, nil, c.Method, append([]Term{recv}, args...), c.Value.Type(), pos)
 			vc.setResults(fr, instr, rs)
 			return
@@ -179,6 +182,9 @@ func (vc *VC) call(fr *Frame, st *State, instr *ssa.Call, c *ssa.CallCommon) {
 	}
 	key := vc.eng.funcKey(fn)
 	if con := vc.eng.contractsByKey[key]; con != nil && con.Flags["inline"] == "" {
+		if con.Iterates != "" && vc.iterateCallback(fr, st, instr, c, con, sig, pos) {
+			return
+		}
 		rs := vc.applyContract(fr, st, con, fn, nil, args, nil, pos)
 		vc.setResults(fr, instr, rs)
 		return
@@ -414,6 +420,10 @@ func (vc *VC) callMods(fr *Frame, c *ssa.CallCommon, mods map[string]bool, depth
 }
 
 func (vc *VC) contractMods(con *Contract, mods map[string]bool) bool {
+	if con.Iterates != "" {
+		// the callback's effects are not summarised here: treat as unknown inside enclosing loops
+		return true
+	}
 	if !con.HasAssigns {
 		return con.Flags["pure"] == ""
 	}
@@ -990,4 +1000,134 @@ func (vc *VC) lockRecord(st *State, name string, args []Term) {
 	}
 	h := vc.get(st, "W_lockheld", lockHeldSort)
 	vc.set(st, "W_lockheld", vc.q.Define("W_lockheld", Store(h, Root(addr), Store(Select(h, Root(addr)), PathOf(addr), held))))
+}
+
+
+// ---------- iterator callbacks: x.Range(func(...) bool {...}), once.Do(func() {...}) ----------
+// A callee whose contract says `iterates <param>` does nothing but call that function-typed argument zero
+// or more times, sequentially and synchronously, with arguments constrained by its `yields` clauses. When the
+// argument is a function literal of the calling function, the call is encoded like a loop around the
+// literal's body: the caller's `callsite <callee> invariant I` clauses must hold before the call, the memory
+// the body may write is havocked, I is assumed, ONE execution of the body with arbitrary arguments must
+// re-establish I, and execution continues after the call from the havocked state with I.
+// Returns false (caller falls back to the plain contract / havoc) when the argument is not a literal.
+func (vc *VC) iterateCallback(fr *Frame, st *State, instr *ssa.Call, c *ssa.CallCommon, con *Contract, sig *types.Signature, pos token.Pos) bool {
+	// locate the callback argument
+	idx := -1
+	for i := 0; i < sig.Params().Len(); i++ {
+		if sig.Params().At(i).Name() == con.Iterates || fmt.Sprintf("arg%d", i) == con.Iterates {
+			idx = i
+		}
+	}
+	if idx < 0 || idx >= len(c.Args) {
+		return false
+	}
+	var mc *ssa.MakeClosure
+	var cbFn *ssa.Function
+	switch v := c.Args[idx].(type) {
+	case *ssa.MakeClosure:
+		mc = v
+		cbFn, _ = v.Fn.(*ssa.Function)
+	case *ssa.Function:
+		cbFn = v
+	}
+	if cbFn == nil || len(cbFn.Blocks) == 0 || fr.depth >= maxInlineDepth {
+		return false
+	}
+	name := c.Signature().Recv()
+	_ = name
+	calleeName := ""
+	if c.IsInvoke() {
+		calleeName = c.Method.Name()
+	} else if f := c.StaticCallee(); f != nil {
+		calleeName = f.Name()
+	}
+	var invs []*CallAssert
+	if fr.con != nil {
+		for _, ci := range fr.con.CallInvs {
+			if ci.Callee == calleeName {
+				invs = append(invs, ci)
+				vc.callAssertHit[ci] = true
+			}
+		}
+	}
+	evalInv := func(s *State, ci *CallAssert) Term {
+		env := vc.newEnv(fr, s, fr.entry)
+		env.at = fr.curBlock
+		vc.sameBlockOK = true
+		defer func() { vc.sameBlockOK = false }()
+		return vc.specBool(env, ci.Clause)
+	}
+	// 1. the invariant holds before the first call of the callback
+	for _, ci := range invs {
+		vc.addObl(fr, st, "cb-inv-entry", calleeName+"/"+ci.Clause.Label, evalInv(st, ci), ci.Clause, pos)
+	}
+	// 2. havoc what the callback body may write
+	mods := map[string]bool{}
+	all := false
+	for _, b := range cbFn.Blocks {
+		for _, ins := range b.Instrs {
+			if vc.instrMods(fr, ins, mods, 1) {
+				all = true
+			}
+		}
+	}
+	if all {
+		vc.havocAll(st, nil)
+	} else {
+		for n := range mods {
+			if cur, ok := st.mem[n]; ok {
+				st.mem[n] = vc.q.Fresh(n+"$cb", cur.Sort)
+			} else if srt, ok := vc.memSorts[n]; ok {
+				st.mem[n] = vc.q.Fresh(n+"$cb", srt)
+			}
+		}
+	}
+	na := vc.q.Fresh("alloc$cb", SInt)
+	vc.q.Assert(Ge(na, st.alloc))
+	st.alloc = na
+	// 3. assume the invariant
+	for _, ci := range invs {
+		vc.q.Assert(Implies(st.reach, evalInv(st, ci)))
+	}
+	// 4. one arbitrary execution of the body re-establishes it
+	it := st.clone()
+	var cbArgs []Term
+	cbSig := cbFn.Signature
+	envY := &Env{vc: vc, fr: nil, st: it, old: it, names: map[string]Bound{}, nq: new(int), con: con}
+	if fr.fn.Pkg != nil {
+		envY.pkg = fr.fn.Pkg.Pkg
+	}
+	for i := 0; i < cbSig.Params().Len(); i++ {
+		pt := cbSig.Params().At(i).Type()
+		a := vc.q.Fresh(fr.prefix+"$cbarg", vc.sortOf(pt))
+		vc.q.Assert(Implies(it.reach, vc.wfAssume(it, a, pt, 0)))
+		cbArgs = append(cbArgs, a)
+		envY.names[fmt.Sprintf("cb%d", i)] = Bound{a, pt}
+	}
+	for _, y := range con.Yields {
+		func() {
+			defer func() {
+				if r := recover(); r != nil {
+					if se, ok := r.(specErr); ok {
+						vc.bindError(y, string(se))
+						return
+					}
+					panic(r)
+				}
+			}()
+			vc.q.Assert(Implies(it.reach, vc.specBool(envY, y)))
+		}()
+	}
+	vc.inline(fr, it, cbFn, mc, cbArgs, pos)
+	for _, ci := range invs {
+		vc.addObl(fr, it, "cb-inv-preserved", calleeName+"/"+ci.Clause.Label, evalInv(it, ci), ci.Clause, pos)
+	}
+	// 5. after the call: any number of executions happened
+	rs := vc.freshResults(fr, st, sig, "ret_"+calleeName)
+	vc.assumeWF(st, rs, sig)
+	vc.setResults(fr, instr, rs)
+	vc.usedContracts[con.Key()] = true
+	vc.assumed["callee "+con.Key()+" only calls its function argument (zero or more times, synchronously); the function literal's body is verified in place under the call-site invariant"] = true
+	return true
 }
